@@ -20,7 +20,7 @@ FUEL = 6             # model fuel for the insert/resize retry loop
 def build_model(ctx):
     d = os.path.join(ctx.work, "model")
     os.makedirs(d, exist_ok=True)
-    models = ["CuckooSeq"]
+    models = ["CuckooSeq", "StripedSeq"]
     srcs = [os.path.join(vcheck.COQ, "Extract", "Extract_C17.v"), os.path.join(vcheck.VERIF, "ocaml", "c17_main.ml")] + \
            [os.path.join(vcheck.COQ, "Model", m + ".v") for m in models]
     key = vcheck.file_hash(srcs)
@@ -313,16 +313,249 @@ def cuckoo_part(ctx, model, cov):
     return len(cases), len(distinct)
 
 
+# ------------------------------------------------------------------------------------------------ other families
+
+def write_other_cases(path, cases, striped_model=False):
+    with open(path, "w") as f:
+        for c in cases:
+            f.write("case %s\n" % c["id"])
+            if not striped_model:
+                f.write("family %s\n" % c["family"])
+                f.write("cfg %s\n" % " ".join(map(str, c["cfg"])))
+            else:   # model cfg: lg0 kind n lgcap
+                f.write("cfg %s\n" % " ".join(map(str, c["cfg"][:3] + [LG_CAP])))
+            f.write("hash %s\nops %s\nend\n" % (" ".join(map(str, c["hash"])), " ".join(map(str, c["ops"]))))
+
+
+OTHER_HASH_KINDS = ["constant", "two-valued", "low-bits-shared", "high-bits-only", "identity", "few-values", "random", "duplicates"]
+
+
+def gen_hash1(rng, kind, n, width):
+    top = (1 << width) - 1
+    if kind == "constant":
+        c = rng.below(1 << min(width, 12)); t = [c] * n
+    elif kind == "two-valued":
+        a, b = rng.below(1 << min(width, 10)), rng.below(1 << min(width, 10)); t = [a if rng.chance(1, 2) else b for _ in range(n)]
+    elif kind == "low-bits-shared":      # constant prefix in cut order: collide for the first s bits
+        s_ = 4 + rng.below(max(1, width - 8)); low = rng.below(1 << s_); t = [(low | (rng.below(1 << 12) << s_)) & top for _ in range(n)]
+    elif kind == "high-bits-only":
+        sh = width - 4 - rng.below(4); t = [(rng.below(16) << sh) & top for _ in range(n)]
+    elif kind == "identity":
+        t = list(range(n))
+    elif kind == "few-values":
+        vals = [rng.below(top + 1) for _ in range(2 + rng.below(4))]; t = [rng.choice(vals) for _ in range(n)]
+    elif kind == "duplicates":
+        base = [rng.below(top + 1) for _ in range(max(2, n // 2))]; t = [rng.choice(base) for _ in range(n)]
+    else:
+        t = [rng.below(top + 1) for _ in range(n)]
+    return t
+
+
+def gen_ops(rng, n, okind):
+    order = list(range(n))
+    if rng.chance(1, 2):
+        for i in range(n - 1, 0, -1):
+            j = rng.below(i + 1); order[i], order[j] = order[j], order[i]
+    ops = []
+    for x in order:
+        ops += [1, x]
+        if okind >= 1 and rng.chance(1, 5): ops += [2, rng.below(n)]
+        if okind == 2 and rng.chance(1, 6): ops += [1, rng.below(n)]
+        if okind == 2 and rng.chance(1, 8): ops += [3, rng.below(n)]
+    return ops
+
+
+def gen_other_case(rng, cid, family):
+    hk = rng.choice(OTHER_HASH_KINDS)
+    okind = rng.below(3)
+    if family == "striped":
+        pk = rng.below(2)
+        cfg = [rng.choice([4, 4, 5]), pk, (1 + rng.below(2)) if pk == 0 else (1 + rng.below(3)), rng.below(3)]
+        n = 8 + rng.below(70) if pk == 0 else 4 + rng.below(24)
+        if hk == "duplicates": hk = "few-values"
+        ht = gen_hash1(rng, hk, n, 16)
+    elif family == "split":
+        cfg = [rng.choice([1, 2, 4, 8, 64, 1024]), 1 + rng.below(2), rng.below(2), rng.below(2)]
+        n = 4 + rng.below(40)
+        if hk == "duplicates": hk = "few-values"
+        ht = gen_hash1(rng, hk, n, 32)
+    else:
+        width = rng.choice([16, 32])
+        cfg = [rng.choice([2, 4, 4, 5, 6]), rng.choice([1, 2, 2, 3, 4]), width]
+        n = 4 + rng.below(40)
+        ht = gen_hash1(rng, hk, n, width)
+    return {"id": cid, "family": family, "cfg": cfg, "hash": ht, "ops": gen_ops(rng, n, okind), "hash_kind": hk,
+            "ops_kind": ["insert-only", "insert-erase", "mixed"][okind]}
+
+
+def set_model(c):
+    """Plain-set reference: per op (res, size, found keys); final key set.  For feldman the element is the hash."""
+    fam = c["family"]; h = c["hash"]; n = len(h)
+    ident = (lambda k: h[k]) if fam == "feldman" else (lambda k: k)
+    cur = {}          # identity -> key of the node that represents it
+    out = []
+    for j in range(0, len(c["ops"]), 2):
+        code, k = c["ops"][j], c["ops"][j + 1]
+        e = ident(k)
+        if code == 1:
+            res = 0 if e in cur else 1
+            if res: cur[e] = k
+        elif code == 2:
+            res = 1 if e in cur else 0
+            cur.pop(e, None)
+        else:
+            res = 1 if e in cur else 0
+        out.append({"res": res, "size": len(cur), "found": [q for q in range(n) if ident(q) in cur]})
+    return out, sorted(cur.values())
+
+
+def other_part(ctx, model, cov):
+    exe = vcheck.cxx_build(os.path.join(vcheck.VERIF, "harness/C17/others.cpp"), os.path.join(ctx.work, "h", "others"), hook=False)
+    rng = ctx.rng.fork()
+    per = 1500 if ctx.thorough() else 400
+    cases = []
+    cdir = os.path.join(vcheck.VERIF, "corpus", "C17")
+    for f in sorted(os.listdir(cdir)) if os.path.isdir(cdir) else []:
+        if f.endswith(".json"):
+            cc = json.load(open(os.path.join(cdir, f)))
+            if cc.get("family") in ("striped", "split", "feldman"):
+                cases.append(cc)
+    ncorpus = len(cases)
+    for fam in ("striped", "split", "feldman"):
+        cases += [gen_other_case(rng, "%s%d" % (fam[:2], i), fam) for i in range(per)]
+    if ctx.replay:
+        rc = json.load(open(ctx.replay))
+        cases = [rc["case"]] if rc.get("case", {}).get("family") in ("striped", "split", "feldman") else []
+        ncorpus = 0
+    if not cases:
+        return 0, 0
+    # the extracted StripedSet model decides where striped cases are cut (capacity cap) and is compared in full
+    st = [c for c in cases if c["family"] == "striped"]
+    mpath = os.path.join(ctx.work, "striped_model_cases.txt")
+    write_other_cases(mpath, st, striped_model=True)
+    rc, out = vcheck.sh("ulimit -s unlimited; %s runs < %s" % (model, mpath), timeout=1200)
+    smod = parse_out(out)
+    run_cases = []
+    for c in cases:
+        if c["family"] == "striped":
+            m = smod.get(c["id"], {"ops": []})
+            c2 = dict(c); c2["ops"] = c["ops"][:2 * len(m["ops"])]
+            run_cases.append(c2)
+        else:
+            run_cases.append(c)
+    rout = {}
+    B = 300
+    bad_batches = []
+    for b in range(0, len(run_cases), B):
+        part = run_cases[b:b + B]
+        path = os.path.join(ctx.work, "others_impl_%d.txt" % (b // B))
+        write_other_cases(path, part)
+        rc, out = vcheck.sh("ulimit -v 6000000; timeout 120 %s < %s" % (exe, path), timeout=150)
+        o = parse_out(out); rout.update(o)
+        if rc != 0:
+            bad_batches.append((b, rc))
+            rest = [c for c in part if c["id"] not in o]
+            if rest:
+                write_other_cases(path + ".b", rest)
+                rc2, out2 = vcheck.sh("ulimit -v 6000000; timeout 120 %s < %s" % (exe, path + ".b"), timeout=150)
+                rout.update(parse_out(out2))
+    fam_stats = {}
+    distinct = set()
+    for c in run_cases:
+        fam = c["family"]
+        fs = fam_stats.setdefault(fam, {"cases": 0, "agree": 0, "diverged": 0, "ops_compared": 0, "grew": 0, "hash_kinds": {}, "ops": {"insert": 0, "erase": 0, "find": 0},
+                                        "config_kinds": set(), "model_compared": 0})
+        fs["cases"] += 1
+        fs["hash_kinds"][c.get("hash_kind", "corpus")] = fs["hash_kinds"].get(c.get("hash_kind", "corpus"), 0) + 1
+        fs["config_kinds"].add(tuple(c["cfg"]))
+        for j in range(0, len(c["ops"]), 2):
+            fs["ops"][{1: "insert", 2: "erase"}.get(c["ops"][j], "find")] += 1
+        r = rout.get(c["id"])
+        ref, ref_final = set_model(c)
+        d = None
+        if r is None or not r["done"]:
+            d = {"op": len(r["ops"]) if r else 0, "what": "real container did not finish the case (crash, hang or memory blow-up)"}
+        else:
+            for j, a in enumerate(ref):
+                if j >= len(r["ops"]):
+                    d = {"op": j, "what": "missing output"}; break
+                b_ = r["ops"][j]
+                for f in ("res", "size", "found"):
+                    if a[f] != b_[f]:
+                        lost = sorted(set(a["found"]) - set(b_["found"])) if f == "found" else None
+                        d = {"op": j, "field": f, "set_semantics": a[f], "impl": b_[f], "operation": c["ops"][2 * j:2 * j + 2], "lost_keys": lost}
+                        break
+                if d: break
+            if d is None and sorted(r["final"] or []) != ref_final:
+                d = {"op": len(ref), "field": "iteration", "set_semantics": ref_final, "impl": sorted(r["final"] or []),
+                     "lost_keys": sorted(set(ref_final) - set(r["final"] or []))}
+            if d is None and fam == "striped":
+                m = smod.get(c["id"])
+                if m:
+                    fs["model_compared"] += 1
+                    for j in range(len(ref)):
+                        for f in ("res", "size", "lg", "found"):
+                            if m["ops"][j][f] != r["ops"][j][f]:
+                                d = {"op": j, "field": "%s (extracted StripedSeq model)" % f, "model": m["ops"][j][f], "impl": r["ops"][j][f]}
+                                break
+                        if d: break
+                    if d is None and len(m["ops"]) == len(c["ops"]) // 2 == len(ref) and m["final"] != r["final"] and c["cfg"][3] != 1:
+                        d = {"op": len(ref), "field": "final layout (clear_and_dispose order)", "model": m["final"], "impl": r["final"]}
+                    if r["ops"] and r["ops"][-1]["lg"] > c["cfg"][0]:
+                        fs["grew"] += 1; distinct.add(json.dumps([fam, c["cfg"], c["hash"], c["ops"]]))
+        fs["ops_compared"] += len(ref)
+        if fam != "striped" and len(ref) and ref[-1]["size"] > 2:
+            fs["grew"] += 1; distinct.add(json.dumps([fam, c["cfg"], c["hash"], c["ops"]]))
+        if d is None:
+            fs["agree"] += 1
+        else:
+            fs["diverged"] += 1
+            names = {"striped": "StripedSet (internal_resize)", "split": "SplitListSet (bucket table growth / init_bucket)", "feldman": "FeldmanHashSet (expand_slot)"}
+            if d.get("lost_keys"):
+                what = "%s lost keys during growth: an element inserted successfully is no longer found" % names[fam]
+            else:
+                what = "%s differs from set semantics after an operation" % names[fam]
+            ctx.violation(what, {"case": c, "first_difference": d, "impl_ops": (r or {}).get("ops", [])[:d.get("op", 0) + 1]}, signature=None)
+    for fs in fam_stats.values():
+        fs["config_kinds"] = len(fs["config_kinds"])
+    cov["others"] = {"families": fam_stats, "corpus_cases": ncorpus, "watchdog_batches": bad_batches,
+                     "reference": "plain set semantics (results, size(), contains() of every key, iteration); StripedSet additionally against the extracted StripedSeq model (bucket_count after every op, final bucket layout)"}
+    return len(run_cases), len(distinct)
+
+
+def model_search(ctx, model, cov):
+    """Exhaustive model-side sweeps (small scope) that back the minimality claims of the witnesses."""
+    sweeps = [("k2 ps1 thr0 lg0=1 keys=2 hashes<8", "2 1 0 0 1 2 8 6 1"), ("k2 ps1 thr0 lg0=1 keys=3 hashes<8", "2 1 0 0 1 3 8 6 1"),
+              ("k2 ps2 thr1 lg0=1 keys=5 hashes<4", "2 2 1 0 1 5 4 6 1"), ("k2 ps2 thr1 lg0=1 keys=6 hashes<2", "2 2 1 0 1 6 2 6 1")]
+    if ctx.thorough():
+        sweeps += [("k2 ps1 thr0 lg0=0 keys=3 hashes<8", "2 1 0 0 0 3 8 6 1"), ("k2 ps1 thr0 lg0=2 keys=3 hashes<8", "2 1 0 0 2 3 8 6 1"),
+                   ("k2 ps1 thr0 ordered keys=3 hashes<8", "2 1 0 1 1 3 8 6 1"), ("k2 ps2 thr1 lg0=1 keys=8 hashes<2", "2 2 1 0 1 8 2 6 1"),
+                   ("k3 ps1 thr0 lg0=1 keys=3 hashes<4", "3 1 0 0 1 3 4 6 1"), ("k2 ps3 thr2 lg0=1 keys=8 hashes<2", "2 3 2 0 1 8 2 6 1")]
+    procs = [(name, subprocess.Popen("ulimit -s unlimited; %s search %s" % (model, args), shell=True, stdout=subprocess.PIPE, text=True)) for name, args in sweeps]
+    res = {}
+    for name, p in procs:
+        out, _ = p.communicate()
+        m = re.search(r"searched (\d+) witnesses (\d+) outoffuel (\d+)", out)
+        w = re.search(r"witness .*", out)
+        res[name] = {"assignments": int(m.group(1)) if m else None, "with_drop": int(m.group(2)) if m else None,
+                     "ops_out_of_fuel_or_capped": int(m.group(3)) if m else None, "first_witness": w.group(0) if w else None}
+    cov["model_exhaustive_search"] = res
+    return sum(v["assignments"] or 0 for v in res.values())
+
+
 def run(ctx):
     res = vcheck.coq_build(["Properties/Properties_C17.v"])
     ctx.coq_evidence(res)
     model = build_model(ctx)
     cov = {}
+    nsearch = 0 if ctx.replay else model_search(ctx, model, cov)
     n1, d1 = cuckoo_part(ctx, model, cov) or (0, 0)
+    n2, d2 = other_part(ctx, model, cov)
     if not res.ok:
         ctx.violation("Coq obligations of C17 do not check: %s" % (res.failed[:2],), {"theorem": [f[2] for f in res.failed], "errors": res.failed[:3]}, no_input=True)
     ctx.coverage.update(cov)
-    ctx.coverage.update({"evaluations": n1, "distinct_nontrivial": d1,
-                         "rule": "a case = configuration x hash lookup tables x operation sequence; non-trivial = the container grew at least once during the case"})
+    ctx.coverage.update({"evaluations": n1 + n2, "distinct_nontrivial": d1 + d2, "model_side_exhaustive_assignments": nsearch,
+                         "rule": "a case = family x configuration x hash lookup table(s) x operation sequence, run on the real container and compared after every operation; non-trivial = distinct case in which the container grew at least once (cuckoo/striped: bucket_count doubled; split-list/Feldman: more than 2 elements, i.e. bucket-table growth / slot expansion possible)",
+                         "samples": cov.get("samples", [])})
     return ctx.finish(vcheck.STD_TRUSTED + ["ocaml/c17_main.ml (case parsing / printing)", "harness/C17/*.cpp"],
                       ["one thread: locks always succeed", "capacities are powers of two (the constructors apply ceil2)"])
